@@ -363,6 +363,24 @@ static const uint8_t R[64] = {
   2, 2, 2, 2, 2, 2, 2, 2, 3, 3, 4, 2, 1, 1, 2, 0,
 };
 
+/* Extreme values reached while applying the delta codes of one pattern, as
+   opposed to R[], which holds only the net change.  HI[] is the highest and
+   LO[] the lowest intermediate change, biased by 3 like R[].  Every single
+   step has to stay within the valid code length range, not just the sum. */
+static const uint8_t HI[64] = {
+  3, 3, 3, 3, 3, 3, 3, 3, 3, 3, 3, 3, 3, 3, 3, 3,
+  3, 3, 3, 3, 3, 3, 3, 3, 3, 3, 3, 3, 3, 3, 3, 3,
+  4, 4, 4, 4, 4, 4, 4, 4, 5, 5, 6, 5, 4, 4, 4, 4,
+  3, 3, 3, 3, 3, 3, 3, 3, 3, 3, 4, 3, 3, 3, 3, 3,
+};
+
+static const uint8_t LO[64] = {
+  3, 3, 3, 3, 3, 3, 3, 3, 3, 3, 3, 3, 3, 3, 3, 3,
+  3, 3, 3, 3, 3, 3, 3, 3, 3, 3, 3, 3, 3, 3, 3, 3,
+  3, 3, 3, 3, 3, 3, 3, 3, 3, 3, 3, 3, 3, 3, 3, 2,
+  2, 2, 2, 2, 2, 2, 2, 2, 2, 2, 2, 2, 1, 1, 1, 0,
+};
+
 
 #define DECLARE unsigned w; uint64_t v; const uint32_t *next, *limit,   \
                                           *tt_limit; uint32_t *tt
@@ -577,10 +595,16 @@ retrieve(struct decoder_state *restrict ds, struct bitstream *bs)
     for (rs->t = 0; rs->t < rs->num_trees; rs->t++) {
       rs->j = 0u;
       TAKE(rs->code_len[0u], 5);
+      if (unlikely(rs->code_len[0u] < MIN_CODE_LENGTH ||
+                   rs->code_len[0u] > MAX_CODE_LENGTH))
+        return ERR_DELTA;
 
       while (rs->j < rs->alpha_size) {
         unsigned k = PEEK(6u);
 
+        if (unlikely(rs->code_len[rs->j] + LO[k] < 3 + MIN_CODE_LENGTH ||
+                     rs->code_len[rs->j] + HI[k] > 3 + MAX_CODE_LENGTH))
+          return ERR_DELTA;
         rs->code_len[rs->j] += R[k];
         if (unlikely(rs->code_len[rs->j] < 3 + MIN_CODE_LENGTH ||
                      rs->code_len[rs->j] > 3 + MAX_CODE_LENGTH))
